@@ -26,6 +26,9 @@ func phiWeb(v ssa.Value) map[ssa.Value]bool {
 			return
 		}
 		web[x] = true
+		if _, isPrm := x.(*ssa.Parameter); isPrm {
+			return // a parameter is a source shared by many variables, not a version of one
+		}
 		if phi, ok := x.(*ssa.Phi); ok {
 			for _, e := range phi.Edges {
 				walk(e)
